@@ -16,6 +16,8 @@ Definition origin := nat.
 Definition fname := N.
 Definition loc := nat.
 Definition vparam (i : nat) : var := N.of_nat (S i).
+(* the second result channel of a function of arity a: the first variable after its parameters *)
+Definition ret2 (a : nat) : var := vparam a.
 
 Inductive eop : Type :=
 | Alias (v : var)                                  (* v := <expr>.dataset *)
@@ -23,7 +25,9 @@ Inductive eop : Type :=
 | Copy (v : var) (ws : list var)                   (* v := newly allocated object (copy of ws) *)
 | Write (c : nat) (w : var) (k : N)                (* in-place mutation (site k) of an object w reaches;
                                                       class c: 0 attribute store, 1 other definite, 2 unknown code *)
-| Call (r : var) (f : fname) (args : list (list var)).   (* r := f(args) *)
+| Call (r r2 : var) (f : fname) (args : list (list var)).
+   (* r := f(args); r2 := the second result channel of f (the variable after its parameters: the translator keeps
+      there what `.dataset` of the returned value denotes) *)
 
 (* regular expressions over operations: every Python execution of a function body is a
    (prefix-closed) trace of its expression; Part p = p possibly abandoned part-way (exception caught,
@@ -76,8 +80,8 @@ Section Semantics.
                       | S i => if Nat.ltb i a then reach s (nth i args []) else []
                       end) (hp s) (nx s).
   (* after the call: the caller's variables are unchanged, r holds the returned value, the heap is the callee's *)
-  Definition after_call (s s1 : state) (r : var) : state :=
-    mkstate (fun w => if N.eqb w r then st s1 0%N else st s w) (hp s1) (nx s1).
+  Definition after_call (s s1 : state) (r r2 : var) (a : nat) : state :=
+    mkstate (fun w => if N.eqb w r2 then st s1 (ret2 a) else if N.eqb w r then st s1 0%N else st s w) (hp s1) (nx s1).
   Definition after_raise (s s1 : state) : state := mkstate (st s) (hp s1) (nx s1).
 
   (* exec n p s b s' : p started in s can stop in s'; b = true: p ran to completion,
@@ -90,12 +94,12 @@ Section Semantics.
   | E_copy n v ws s : exec n (Op (Copy v ws)) s true (alloc s v ws)
   | E_write_hit n c w k l s : In l (st s w) -> exec n (Op (Write c w k)) s true (upd_hp s l (mutate k (hp s l)))
   | E_write_miss n c w k s : exec n (Op (Write c w k)) s true s
-  | E_call_ret n r f args s b s1 :
+  | E_call_ret n r r2 f args s b s1 :
       exec n (body (F f)) (callee_state s (arity (F f)) args) b s1 ->
-      exec (S n) (Op (Call r f args)) s true (after_call s s1 r)
-  | E_call_raise n r f args s b s1 :
+      exec (S n) (Op (Call r r2 f args)) s true (after_call s s1 r r2 (arity (F f)))
+  | E_call_raise n r r2 f args s b s1 :
       exec n (body (F f)) (callee_state s (arity (F f)) args) b s1 ->
-      exec (S n) (Op (Call r f args)) s false (after_raise s s1)
+      exec (S n) (Op (Call r r2 f args)) s false (after_raise s s1)
   | E_seq_t n p q s s1 b s2 : exec n p s true s1 -> exec n q s1 b s2 -> exec n (Seq p q) s b s2
   | E_seq_f n p q s s1 : exec n p s false s1 -> exec n (Seq p q) s false s1
   | E_alt_l n p q s b s1 : exec n p s b s1 -> exec n (Alt p q) s b s1
@@ -114,7 +118,7 @@ Section Semantics.
     | Move v ws => upd_st s v (reach s ws)
     | Copy v ws => alloc s v ws
     | Write c w k => match st s w with l :: _ => upd_hp s l (mutate k (hp s l)) | [] => s end
-    | Call r f args => after_call s (callee_state s 0 args) r
+    | Call r r2 f args => after_call s (callee_state s 0 args) r r2 0
     end.
   Definition run (l : list eop) (s : state) : state := fold_left (fun s' o => step_op o s') l s.
 End Semantics.
@@ -160,7 +164,7 @@ Definition origins (A : astate) (ws : list var) : aset := flat_map (lookup A) ws
 (* write records: (class, origin written, write site).  Every site is kept for writes to the input (origin 0)
    and for attribute stores (class 0); otherwise one witness site per (class, origin) *)
 Definition wrec := (nat * origin * N)%type.
-Definition keep_site (c : nat) (o : origin) : bool := Nat.eqb o 0 || Nat.eqb c 0.
+Definition keep_site (c : nat) (o : origin) : bool := Nat.even o || Nat.eqb c 0.
 Definition wr_has (r : wrec) (l : list wrec) : bool :=
   let '(c, o, k) := r in
   existsb (fun r' => Nat.eqb (fst (fst r')) c && Nat.eqb (snd (fst r')) o &&
@@ -171,8 +175,8 @@ Definition wr_app (a b : list wrec) : list wrec := fold_right wr_add b a.
 Definition writtenb (o : origin) (l : list wrec) : bool := existsb (fun r => Nat.eqb (snd (fst r)) o) l.
 Definition written (o : origin) (l : list wrec) : Prop := exists c k, In (c, o, k) l.
 
-Record summary := mksum { s_wr : list wrec; s_ret : aset }.
-Definition dsum : summary := mksum [] [].
+Record summary := mksum { s_wr : list wrec; s_ret : aset; s_ret2 : aset; s_ar : nat }.
+Definition dsum : summary := mksum [] [] [] 0.
 
 (* nrm: abstract state after normal completion; kills: the (non-empty) origin sets that were overwritten
    on the way — the abstract state at ANY point where the program may have been abandoned is below
@@ -190,15 +194,20 @@ Definition tr (A : astate) (args : list (list var)) (o : origin) : aset :=
 Definition assign (A : astate) (v : var) (os : aset) : astate * astate :=
   (set A v os, match lookup A v with [] => [] | old => [(v, old)] end).
 
+Definition assign2 (A : astate) (v : var) (os : aset) (v2 : var) (os2 : aset) : astate * astate :=
+  let a1 := assign A v os in
+  let a2 := assign (fst a1) v2 os2 in
+  (fst a2, snd a1 ++ snd a2).
+
 Definition ai_op (summ : fname -> summary) (o : eop) (A : astate) : astate * astate * list wrec :=
   match o with
   | Alias v => (assign A v [0], [])
   | Move v ws => (assign A v (dedup (origins A ws)), [])
   | Copy v ws => (assign A v [], [])
   | Write c w k => ((A, []), wr_app (map (fun o => (c, o, k)) (lookup A w)) [])
-  | Call r f args =>
+  | Call r r2 f args =>
       let sm := summ f in
-      (assign A r (dedup (flat_map (tr A args) (s_ret sm))),
+      (assign2 A r (dedup (flat_map (tr A args) (s_ret sm))) r2 (dedup (flat_map (tr A args) (s_ret2 sm))),
        wr_app (flat_map (fun r => map (fun o' => (fst (fst r), o', snd r)) (tr A args (snd (fst r)))) (s_wr sm)) [])
   end.
 
@@ -238,7 +247,7 @@ Definition sub_set (a b : list nat) : bool := forallb (fun x => mem x b) a.
 
 Definition analyse (summ : list summary) (it : nat) (f : fdef) : summary * bool :=
   let r := ai (fun g => nth (N.to_nat g) summ dsum) it (body f) (init (arity f)) in
-  (mksum (wr_app (wr r) []) (dedup (lookup (anyS r) 0%N)), ok r).
+  (mksum (wr_app (wr r) []) (dedup (lookup (anyS r) 0%N)) (dedup (lookup (anyS r) (ret2 (arity f)))) (arity f), ok r).
 
 Fixpoint forallb2 {A B} (f : A -> B -> bool) (l : list A) (m : list B) : bool :=
   match l, m with
@@ -251,13 +260,15 @@ Fixpoint forallb2 {A B} (f : A -> B -> bool) (l : list A) (m : list B) : bool :=
    WITH the table, is below its table entry *)
 Definition fn_consistent (summ : list summary) (it : nat) (f : fdef) (sm : summary) : bool :=
   let a := analyse summ it f in
-  snd a && sub_wr (s_wr (fst a)) (s_wr sm) && sub_set (s_ret (fst a)) (s_ret sm).
+  snd a && sub_wr (s_wr (fst a)) (s_wr sm) && sub_set (s_ret (fst a)) (s_ret sm) &&
+  sub_set (s_ret2 (fst a)) (s_ret2 sm).
 Definition consistent (it : nat) (fdefs : list fdef) (summ : list summary) : bool :=
   forallb2 (fn_consistent summ it) fdefs summ.
 
 Definition merge_summary (a b : summary) : summary :=
-  mksum (wr_app (s_wr a) (s_wr b)) (dedup (s_ret a ++ s_ret b)).
-Definition sub_summary (a b : summary) : bool := sub_wr_exact (s_wr a) (s_wr b) && sub_set (s_ret a) (s_ret b).
+  mksum (wr_app (s_wr a) (s_wr b)) (dedup (s_ret a ++ s_ret b)) (dedup (s_ret2 a ++ s_ret2 b)) (s_ar a).
+Definition sub_summary (a b : summary) : bool :=
+  sub_wr_exact (s_wr a) (s_wr b) && sub_set (s_ret a) (s_ret b) && sub_set (s_ret2 a) (s_ret2 b).
 Definition next_round (it : nat) (fdefs : list fdef) (summ : list summary) : list summary :=
   map (fun fs => merge_summary (fst (analyse summ it (fst fs))) (snd fs)) (combine fdefs summ).
 Fixpoint solve (it : nat) (fdefs : list fdef) (rounds : nat) (summ : list summary) : list summary :=
@@ -275,10 +286,15 @@ Definition input_clean (sm : summary) : bool := negb (writtenb 0 (s_wr sm)).
 Definition params_clean (sm : summary) : bool :=
   negb (existsb (fun r => Nat.eqb (fst (fst r)) 0 && negb (Nat.eqb (snd (fst r)) 0)) (s_wr sm)).
 Definition param_clean (i : nat) (sm : summary) : bool := negb (writtenb (S i) (s_wr sm)).
-Definition fn_clean (sm : summary) : bool := input_clean sm && params_clean sm.
+(* The translator gives every Python parameter i the two IR parameters 2i (the value) and 2i+1 (what `.dataset` of
+   the value denotes).  IR parameter j has origin S j: the dataset channels are the EVEN origins >= 2.
+   ds_clean: no write of any class into the dataset of any argument *)
+Definition ds_clean (sm : summary) : bool :=
+  negb (existsb (fun r => negb (Nat.eqb (snd (fst r)) 0) && Nat.even (snd (fst r))) (s_wr sm)).
+Definition fn_clean (sm : summary) : bool := input_clean sm && ds_clean sm && params_clean sm.
 (* offending records (class, origin, write site), for reporting *)
 Definition offending (sm : summary) : list wrec :=
-  filter (fun r => Nat.eqb (snd (fst r)) 0 || Nat.eqb (fst (fst r)) 0) (s_wr sm).
+  filter (fun r => Nat.even (snd (fst r)) || Nat.eqb (fst (fst r)) 0) (s_wr sm).
 
 (* the DESIGN's straight-line checker: an operation list never writes through an alias of the input *)
 Definition no_write_to_alias (l : list eop) : bool :=
